@@ -16,7 +16,9 @@ A fourth part prints trees whose binding variables and formal parameters are NOT
 variable only through till_in (else it takes the longest name, `v in a return b`), so a parser that does not set the flag where the policy says is seen in
 the token stream and rejects the text (VIOLATION with the text); with variables in the scope the flag does not change the tokens and part 2 sees action names only.
 The side conditions of C06_text_roundtrip_*_all (eflag_ok, names_all) and etrack_ok are evaluated per case; where they hold the model must return the tree
-(it is a theorem: a failure means a stale build).  Directed cases with the iteration variable `item` are the known finding item-iteration-variable."""
+(it is a theorem: a failure means a stale build).  Directed cases with the iteration / quantified variable `item` (the former known finding
+item-iteration-variable, repaired in /repo: consume_name returned `item` with till_in left set) are ordinary cases: stream, flags and tree are
+compared like all others and the real parser must give the generated tree."""
 import concurrent.futures
 import json
 import os
@@ -379,12 +381,15 @@ def bind_section(ctx, m):
     for res in model[len(trees):]:
         ok, text, items, mt = res
         cases.append({'tree': None, 'rend': 'layout', 'side': bool(ok), 'text': ''.join(chr(c) for c in text), 'items': items, 'mt': mt})
-    # the known finding: the iteration variable `item`
+    # `item` as the variable of a binding, and an `in` further on (formerly the known finding item-iteration-variable: till_in stayed set behind `item`)
     keys_item = keys + ['item']
     item_terms = ['bind_case %s (%s)' % (c06lex.coq_keys(keys_item), t) for t in
                   ['EFor (%d, EAtom 1, None) [] (EBin InOp (EAtom 3) (EAtom 5))' % nk,
                    'EQuant QSome (%d, EAtom 1) [] (EBin InOp (EAtom 3) (EAtom 5))' % nk,
+                   'EQuant QEvery (%d, EAtom 1) [] (EBin InOp (EAtom 3) (EAtom 5))' % nk,
                    'EFor (%d, EAtom 1, None) [(0, EAtom 3, None)] (EAtom 5)' % nk,
+                   'EFor (0, EAtom 1, None) [(%d, EAtom 3, None)] (EBin InOp (EAtom 3) (EAtom 5))' % nk,
+                   'EQuant QSome (0, EAtom 1) [(%d, EAtom 3)] (EBin InOp (EAtom %d) (EAtom 5))' % (nk, 2 * nk + 1),
                    'EList [EFor (%d, EAtom 1, None) [] (EAtom 3); EBin InOp (EAtom 3) (EAtom 5)]' % nk]]
     item_model = ctx.run_model(HEADER, item_terms, shard_size=25, tag='binditem')
     item_cases = []
@@ -471,25 +476,35 @@ def bind_section(ctx, m):
                           {'text': c['text'], 'mode': 'expr', 'rend': c['rend'], 'kind': 'bind', 'expected': opt_ast(c['mt'], keys), 'names_in_scope': keys})
         else:
             ctx.corr_broken('binder text level (%s) on `%s`' % (c['rend'], c['text']), {'text': c['text']}, why, 'n/a')
-    # known finding
+    # the variable `item`: ordinary cases (the side conditions hold, the model gives the tree back, the real parser must read the same stream,
+    # set the same flags and give the same tree)
     item_asts = ctx.run_impl('ast', [{'bind': [[k, None] for k in keys_item], 'e': c['text'], 'mode': 'expr'} for c in item_cases])
-    item_hits = 0
-    for c, got in zip(item_cases, item_asts):
+    item_traces = run_ptrace('{' + ','.join('%s:1' % k for k in keys_item) + '}', [c['text'] for c in item_cases])
+    item_ok = 0
+    for c, got, ((rtoks, rbits), rok) in zip(item_cases, item_asts, item_traces):
         ctx.evaluations += 1
+        ctx.corr_checked += 1
+        ctx.nontrivial.add('binditem:' + c['text'])
         exp = opt_ast(c['mt'], keys_item)
-        if got.get('ast') != exp:
-            ctx.corr_broken('binder text level (variable item) on `%s`' % c['text'], {'text': c['text']}, got.get('ast', got.get('err')), exp)
-        if c['side']:
-            ctx.broken.append('names_all holds for the variable item: `%s`' % c['text'])
-        if got.get('ast') is None and not c['side']:
-            item_hits += 1
-            if not ctx.known('item-iteration-variable', {'text': c['text']}):
-                ctx.violation('input `%s`: the iteration variable `item` leaves the till_in flag of the lexer set, the next name followed by `in` is cut there' % c['text'],
-                              {'text': c['text'], 'mode': 'expr', 'rend': 'min', 'kind': 'bind', 'expected': 'a tree', 'names_in_scope': keys_item}, impl=got)
+        mtoks, mbits, mend = model_stream(c['items'])
+        if rtoks and rtoks[-1][0] == 'YyEof':
+            rtoks, rbits = rtoks[:-1], rbits[:-1]
+        if not c['side'] or exp is None:
+            ctx.broken.append('variable item: the side conditions of C06_text_roundtrip_min_all hold = %s, tree of the text-level model = %s on `%s` (stale build?)' % (c['side'], exp, c['text']))
+            continue
+        if 'panic' in got or 'crash' in got or got.get('ast') != exp:
+            ctx.violation('input `%s` (the variable of the binding is `item`): the parser gives %s, the tree is %s; the stream it read: %s'
+                          % (c['text'], json.dumps(got.get('ast', got.get('err', got)))[:300], json.dumps(exp)[:300], show(rtoks)),
+                          {'text': c['text'], 'mode': 'expr', 'rend': 'min', 'kind': 'bind', 'expected': exp, 'names_in_scope': keys_item}, impl=got)
+            continue
+        if [list(x) for x in rtoks] != [list(x) for x in mtoks] or list(rbits) != list(mbits):
+            ctx.corr_broken('binder text level (variable item) on `%s`' % c['text'], {'text': c['text']}, [show(rtoks), list(rbits)], [show(mtoks), list(mbits)])
+            continue
+        item_ok += 1
     return {'bind_trees': len(trees), 'bind_texts': hist, 'bind_side_conditions_hold': {k[5:]: v for k, v in stats.items() if k.startswith('side_') and k != 'side_holds'}, 'bind_layouts_inside_the_theorem': stats['layout_in'], 'bind_parser_driven_flag_settings_compared': stats['flag_settings_compared'],
             'bind_tillin_after_comma_seen': stats['tillin_after_comma'], 'bind_type_after_colon_seen': stats['type_after_colon'],
             'bind_stream_disagreements': stats['stream'], 'bind_flag_policy_disagreements': stats['flags'], 'bind_tree_disagreements': stats['tree'],
-            'bind_variables_outside_scope_texts': len(scope_trees), 'bind_variables_outside_scope_disagreements': scope_bad, 'bind_skipped_unbound_name': stats['unbound'], 'bind_item_variable_cases': item_hits}
+            'bind_variables_outside_scope_texts': len(scope_trees), 'bind_variables_outside_scope_disagreements': scope_bad, 'bind_skipped_unbound_name': stats['unbound'], 'bind_item_variable_cases': len(item_cases), 'bind_item_variable_agree': item_ok}
 
 
 def show(toks):
